@@ -314,7 +314,14 @@ fn print_intent(spec: &CmdSpec, il: &IntentLine) -> Option<Printed> {
                 continue;
             }
             // an OS-string / path option may carry a value that is not UTF-8
-            let val: &[u8] = if matches!(a.parser, ValParser::Os | ValParser::Path) && *b >= 8 { b"caf\xe9" } else { b"val7" };
+            let val: &[u8] = if matches!(a.parser, ValParser::Os | ValParser::Path) && *b >= 8 {
+                b"caf\xe9"
+            } else if *b % 5 == 4 && (sp.starts_with("--") || a.require_equals) {
+                // `--opt=`: an empty value is a value, the option is complete
+                b""
+            } else {
+                b"val7"
+            };
             let mut tok = sp.clone().into_bytes();
             if sp.starts_with("--") || a.require_equals {
                 tok.push(b'=');
